@@ -23,6 +23,7 @@ func runC15(c *Ctx) {
 	c15Concurrent(c)
 	c15CallerSupplied(c)
 	c15Mixed(c)
+	c15ThroughRetryClient(c)
 	c15LongOutstanding(c)
 }
 
@@ -341,4 +342,30 @@ func c15Mixed(c *Ctx) {
 		Observe: func() uint64 { return net.TraceHash() },
 	}
 	c.Explore(sc)
+}
+
+// (c”) a caller-supplied identifier must survive the retrying client's queues.
+func c15ThroughRetryClient(c *Ctx) {
+	c.Bound("caller-id-through-retry-client", "ReconnectClient: [QoS 1 publish; QoS 1/2 publish with Message.ID=0x1234 submitted immediately / during the outage / during the reconnect handshake] with <=1 connection cut; every PUBLISH and PUBREL of the second message must carry 0x1234")
+	for _, kind := range []string{"p1", "p2"} {
+		for _, ph := range []byte{'N', 'O', 'H'} {
+			reqs := []rcReq{{Kind: "p1", Tag: "m1", Phase: 'S'}, {Kind: kind, Tag: "m2", Phase: ph, ID: 0x1234}}
+			var r *rcRun
+			sc := &vrt.Scenario{
+				Name:  fmt.Sprintf("C15/rc-caller-id/%s@%c", kind, ph),
+				Bound: vrt.Budget{F: 1},
+				Cfg:   vrt.Config{Horizon: int64(300 * time.Second)},
+				Body: func() {
+					rcExecuteInto(&rcCfg{Reqs: reqs, Faults: env.FaultSet{LostClose: true, AckLost: true}, KeepSession: true}, &r)
+					for _, e := range r.net.Trace {
+						if e.Dir == '>' && e.Pkt != nil && e.Pkt.Type == env.PUBLISH && string(e.Pkt.Payload) == "m2" && e.Pkt.ID != 0x1234 {
+							vrt.Failf("c15/caller-id-changed:retry-client", "message m2 was given to the client with identifier 0x1234 but went out as %s\n%s", e.Pkt, r.summary())
+						}
+					}
+				},
+				Observe: func() uint64 { return r.net.TraceHash() },
+			}
+			c.Explore(sc)
+		}
+	}
 }
